@@ -256,7 +256,11 @@ func c16Render(img draw.Image, rect image.Rectangle, op draw.Op, f func(d ivg.De
 
 func c16Sizes(tier string) [][2]int {
 	if tier == "thorough" {
-		return [][2]int{{1, 1}, {2, 3}, {7, 7}, {64, 64}, {512, 512}, {513, 513}, {600, 600}, {40, 100}, {100, 40}, {511, 3}, {3, 514}, {1024, 16}}
+		szs := [][2]int{{64, 64}, {512, 512}, {513, 513}, {600, 600}, {40, 100}, {100, 40}, {511, 3}, {3, 514}, {1024, 16}, {2, 3}, {256, 700}, {700, 256}, {510, 510}, {511, 511}, {514, 514}, {511, 513}, {513, 511}}
+		for n := 1; n <= 17; n++ {
+			szs = append(szs, [2]int{n, n})
+		}
+		return szs
 	}
 	return [][2]int{{1, 1}, {7, 7}, {64, 64}, {512, 512}, {513, 513}, {600, 600}, {40, 100}, {100, 40}, {511, 3}}
 }
@@ -276,8 +280,8 @@ func init() {
 	mc.Register(&mc.Check{
 		ID:    "C16",
 		Level: "exploration",
-		Rule: "engine P over (graphic x destination x rectangle x transformation): every one-path program over 10 shapes (L, l, H/V, Q+T, q+t, C+S, c+s, A, a, sub-paths via Y and y) x 6 fills (opaque via palette index, translucent via a rounding-sensitive blend, linear-pad gradient, radial-reflect gradient, initial content of a colour register, palette index and register reference with high bits set after the like-numbered register was overwritten) x sizes {1,7,64,512,513,600,40x100,100x40,511x3} (thorough + {2x3,3x514,1024x16}) x {RGBA, Alpha} x {Src, Over}, and every ordered pair of one-path programs (3600) at sizes 64 and 7, rendered with raster/vec. " +
-			"Relations, pixel buffers byte for byte: (a) rectangle at offset (7,9) inside a larger image with sentinel margin == image of its own, margin untouched; (b) viewBox, coordinates and radii x 2^k, gradient matrix linear part x 2^-k, k in {-3,-1,+2,+6} == original; (c) colours via palette index / register reference / blend == direct colours; (d) [P1,P2] with operator Src == P1 with Src then P2 with Over by a fresh Renderer; (r) relation (c) on a Renderer that rendered another graphic with the same palette before; (e) relation (c) between the two graphics in byte form (Encoder -> Decode -> Renderer). " +
+		Rule: "engine P over (graphic x destination x rectangle x transformation): every one-path program over 10 shapes (L, l, H/V, Q+T, q+t, C+S, c+s, A, a, sub-paths via Y and y) x 6 fills (opaque via palette index, translucent via a rounding-sensitive blend, linear-pad gradient, radial-reflect gradient, initial content of a colour register, palette index and register reference with high bits set after the like-numbered register was overwritten) x sizes {1,7,64,512,513,600,40x100,100x40,511x3} (thorough: every n x n for n <= 17, 510..514 around the threshold incl. 511x513 / 513x511, 2x3, 3x514, 1024x16, 256x700, 700x256) x {RGBA, Alpha} x {Src, Over}, and every ordered pair of one-path programs (3600) at sizes 64 and 7, rendered with raster/vec. " +
+			"Relations, pixel buffers byte for byte: (a) rectangle at offset (7,9) inside a larger image with sentinel margin == image of its own, margin untouched; (b) viewBox, coordinates and radii x 2^k, gradient matrix linear part x 2^-k, k in {-3,-1,+2,+6} (thorough: 14 exponents in -8..8 for sizes <= 100) == original; (c) colours via palette index / register reference / blend == direct colours; (d) [P1,P2] with operator Src == P1 with Src then P2 with Over by a fresh Renderer; (r) relation (c) on a Renderer that rendered another graphic with the same palette before; (e) relation (c) between the two graphics in byte form (Encoder -> Decode -> Renderer). " +
 			"distinct = hash of the rendered pixels; non-trivial = render that produced at least one non-zero and one zero pixel",
 		Assumptions: []string{"golang.org/x/image/vector is a trusted dependency", "every float operation of the renderer commutes exactly with power-of-two scaling in the absence of overflow/underflow (the exponent set avoids both)"},
 		Units:       func(tier string) int { return n1 + n1 },
@@ -298,7 +302,11 @@ func init() {
 							if sz[0] <= 100 {
 								c16Check(w, &c16Case{Prog: p, W: sz[0], H: sz[1], Alpha: alpha, Op: op, Rel: "e"})
 							}
-							for _, k := range []int{-3, -1, 2, 6} {
+							ks := []int{-3, -1, 2, 6}
+							if w.Thorough && !big {
+								ks = []int{-8, -6, -5, -4, -3, -2, -1, 1, 2, 3, 4, 5, 6, 8}
+							}
+							for _, k := range ks {
 								_ = big
 								c16Check(w, &c16Case{Prog: p, W: sz[0], H: sz[1], Alpha: alpha, Op: op, Rel: "b", K: k})
 							}
